@@ -8,9 +8,11 @@ vars == <<s, plot, phase>>
 RECURSIVE Sub(_, _)
 Sub(S, n) == IF n = 0 THEN {{}} ELSE Sub(S, n - 1) \cup {T \cup {x} : T \in Sub(S, n - 1), x \in S}
 Sets == {T \in Sub(Choices, K) : Consistent(T) /\ \A ch \in T : \A r \in Requires(ch.flag) : \E x \in T : x.flag = r}
-Plots == {"standard", "pithist", "reliability", "obsfcst", "map"}
+\* "bias": a standard plot of a score whose perfect value lies outside the range of the plotted values (-sp must bring it into the picture)
+Plots == {"standard", "pithist", "reliability", "obsfcst", "map", "bias"}
 Init == /\ s \in Sets /\ plot \in Plots /\ phase = "case" /\ (plot # "standard" => Cardinality(s) <= 1)
         /\ ((\E ch \in s : ch.flag = "-obsleg") => plot = "obsfcst") /\ (plot = "obsfcst" => \E ch \in s : ch.flag = "-obsleg")
+        /\ (plot = "bias" => \E ch \in s : ch.flag = "-sp")
         /\ ((\E ch \in s : ch.flag \in MapOnly) => plot = "map") /\ (plot = "map" => \E ch \in s : ch.flag \in MapOnly)
 RECURSIVE Flat(_)
 Flat(q) == IF q = <<>> THEN <<>> ELSE Head(q) \o Flat(Tail(q))
